@@ -342,6 +342,19 @@ def build_matcharm(spec: dict, sections: dict, log: list, twin: bool = False, su
         _rewrite_r19(it, edits, applied, relfile, o, c)
     if 'R12' in rewrites:
         _rewrite_r12(it, rewrites, edits, applied, relfile, o, c)
+    # R17: on-demand inlining of return-free helper functions of the same file (as for kind=fn items)
+    inl = getattr(_TL, 'inline', None)
+    if inl:
+        q = o
+        while q < c:
+            t = toks[q]
+            if (t.kind == 'ident' and t.text in inl and toks[q + 1].text == '(' and toks[q - 1].text not in ('.', '::', 'fn')):
+                cc = rsx.match_close(toks, q + 1)
+                args = [inline_calls_in_text(a, inl, applied) for a in _split_args(toks, q + 1, cc, src)]
+                edits.append(Edit(t.start, toks[cc].end, _inlined_block(t.text, args, inl, applied, 0), 'R17'))
+                q = cc + 1
+            else:
+                q += 1
     for a, b in substs:
         pat = [t.text for t in rsx.tokenize(a)]
         q = o
